@@ -34,9 +34,39 @@ type xOpts struct {
 
 func defaultXOpts() xOpts { return xOpts{AP: "-", CFloat: true, CBool: true, KP: "#"} }
 
+// applyCount selects among EQUIVALENT ways of reaching the same option state (explicit value, toggle form, the
+// hyphen switch instead of SetAttrPrefix, a redundant call while the other escaping switch is on): every check that
+// sets options thereby also exercises the setters' documented argument-less and coupled forms.
+var applyCount int
+
 // apply sets every package-level option through the exported setters.
 func (o xOpts) apply() {
-	mxj.SetAttrPrefix(o.AP)
+	applyCount++
+	v := applyCount
+	// a PRE-HISTORY every fourth time: other option values are in force and documents with the generators' names and
+	// values are decoded before the requested options are set.  Nothing of it may survive (no cache keyed by name, tag
+	// or text may outlive the options it was filled under: seeds C01-1, C01-5, C14-2, C14-6, C10-2).
+	if v%4 == 0 {
+		mxj.CoerceKeysToLower(true)
+		mxj.CoerceKeysToSnakeCase(true)
+		mxj.CastValuesToInt(true)
+		mxj.SetCheckTagToSkipFunc(func(string) bool { return v%8 == 0 })
+		for _, d := range []string{`<A-b Name="1" A-t="2" id="7" x="true" seq="2.5"><Ab x_y="3">1</Ab><ns:a ns:k="v">T</ns:a><x_y>2.5</x_y><item>007</item><data>true</data><a>1</a><b>1</b><c>1</c></A-b>`} {
+			mxj.NewMapXml([]byte(d), true)
+			mxj.NewMapXmlSeq([]byte(d), true)
+		}
+		mxj.CoerceKeysToLower(o.Lower) // exactly one coercion may stay on: set them one after the other, decoding in between
+		mxj.NewMapXml([]byte(`<A-b Name="1" A-t="2"><Ab x_y="3">1</Ab><ns:a ns:k="v">T</ns:a></A-b>`))
+	}
+	switch {
+	case o.AP == "" && v%2 == 0:
+		mxj.SetAttrPrefix("zz") // a non-empty prefix first: the hyphen switch must clear whatever was set
+		mxj.PrependAttrWithHyphen(false)
+	case o.AP == "-" && v%2 == 0:
+		mxj.PrependAttrWithHyphen(true)
+	default:
+		mxj.SetAttrPrefix(o.AP)
+	}
 	mxj.IncludeTagSeqNum(o.TSeq)
 	mxj.CoerceKeysToLower(o.Lower)
 	mxj.CoerceKeysToSnakeCase(o.Snake)
@@ -53,10 +83,29 @@ func (o xOpts) apply() {
 		mxj.XmlDefaultEmptyElemSyntax()
 	}
 	mxj.XmlCheckIsValid(o.Chk)
-	mxj.XMLEscapeCharsDecoder(false)
-	mxj.XMLEscapeChars(o.Esc)
-	if o.EscDec {
-		mxj.XMLEscapeCharsDecoder(true)
+	switch v % 3 {
+	case 0:
+		mxj.XMLEscapeCharsDecoder(false)
+		mxj.XMLEscapeChars(o.Esc)
+		if o.EscDec {
+			mxj.XMLEscapeCharsDecoder(true)
+		}
+	case 1:
+		// the decoder switch first; encoder escaping through the argument-less toggle from a known state
+		mxj.XMLEscapeCharsDecoder(false)
+		mxj.XMLEscapeChars(false)
+		mxj.XMLEscapeCharsDecoder(o.EscDec)
+		if o.Esc {
+			mxj.XMLEscapeChars() // off -> on, unless decoder-side escaping is on (then it stays off)
+		}
+	default:
+		mxj.XMLEscapeCharsDecoder(false)
+		mxj.XMLEscapeChars(o.Esc)
+		if o.EscDec {
+			mxj.XMLEscapeCharsDecoder(true)
+			mxj.XMLEscapeChars() // documented: ignored while decoder-side escaping is on
+			mxj.XMLEscapeChars(true)
+		}
 	}
 	mxj.SetGlobalKeyMapPrefix(o.KP)
 	if len(o.Skip) > 0 {
